@@ -1,4 +1,7 @@
+#[cfg(not(feature = "verif_hooks"))]
 use std::collections::HashMap;
+#[cfg(feature = "verif_hooks")]
+use crate::verif_seam::HashMap;
 use std::str::FromStr;
 
 use crate::convert::{Converter, PhysicalQuantity};
